@@ -59,16 +59,17 @@ structure DrainKeep (s s' : State) : Prop where
   tx : s'.ctx.Transaction = s.ctx.Transaction
   sid : s'.ctx.sequenceID = s.ctx.sequenceID
   wsub : ∀ ec ∈ s'.writeBus.inside, ec ∈ s.writeBus.inside
+  wqsub : ∀ ec ∈ s'.writeBus.queue, ec ∈ s.writeBus.queue
 
 theorem DrainKeep.refl (s : State) : DrainKeep s s :=
-  ⟨rfl, rfl, rfl, rfl, rfl, rfl, rfl, rfl, rfl, rfl, rfl, rfl, rfl, rfl, Nat.le_refl _, rfl, rfl, rfl, rfl, fun _ h => h⟩
+  ⟨rfl, rfl, rfl, rfl, rfl, rfl, rfl, rfl, rfl, rfl, rfl, rfl, rfl, rfl, Nat.le_refl _, rfl, rfl, rfl, rfl, fun _ h => h, fun _ h => h⟩
 
 theorem DrainKeep.trans {a b c : State} (h1 : DrainKeep a b) (h2 : DrainKeep b c) : DrainKeep a c :=
   ⟨h2.fu.trans h1.fu, h2.decodeBus.trans h1.decodeBus, h2.du.trans h1.du, h2.controlBus.trans h1.controlBus,
    h2.cuPendings.trans h1.cuPendings, h2.executeBus.trans h1.executeBus, h2.eus.trans h1.eus, h2.wus.trans h1.wus,
    h2.mmu.trans h1.mmu, h2.cycles.trans h1.cycles, h2.mode.trans h1.mode, h2.wbuf.trans h1.wbuf, h2.wql.trans h1.wql,
    h2.wbl.trans h1.wbl, Nat.le_trans h2.wqle h1.wqle, h2.mem.trans h1.mem, h2.rat.trans h1.rat, h2.tx.trans h1.tx, h2.sid.trans h1.sid,
-   fun ec h => h1.wsub ec (h2.wsub ec h)⟩
+   fun ec h => h1.wsub ec (h2.wsub ec h), fun ec h => h1.wqsub ec (h2.wqsub ec h)⟩
 
 /-- one write unit (idle) called with `before`: whenever its drop decision for the oldest result is the one of `kept from_` -/
 theorem wuCycle_drainG (from_ before : Word) (target : GoMap Reg Word) (s s' : State) (j : Nat) (hj : j < s.wus.length)
@@ -105,24 +106,24 @@ theorem wuCycle_drainG (from_ before : Word) (target : GoMap Reg Word) (s s' : S
         subst hr
         simp only [hrc, if_true] at hregs
         exact ⟨⟨h.wus, hnm, hregs⟩, ⟨rfl, rfl, rfl, rfl, rfl, rfl, rfl, rfl, rfl, rfl, rfl, rfl, rfl, rfl, hlen, rfl, rfl, rfl, rfl,
-          fun e he => by rw [hin]; exact List.mem_cons_of_mem _ he⟩⟩
+          fun e he => by rw [hin]; exact List.mem_cons_of_mem _ he, fun e he => by rw [hq]; exact List.mem_cons_of_mem _ he⟩⟩
       · rename_i hrc
         simp only [hnm0, Bool.false_eq_true, if_false, pure, Except.pure, Except.ok.injEq] at hr
         subst hr
         simp only [hrc, Bool.false_eq_true, if_false] at hregs
         exact ⟨⟨h.wus, hnm, hregs⟩, ⟨rfl, rfl, rfl, rfl, rfl, rfl, rfl, rfl, rfl, rfl, rfl, rfl, rfl, rfl, hlen, rfl, rfl, rfl, rfl,
-          fun e he => by rw [hin]; exact List.mem_cons_of_mem _ he⟩⟩
+          fun e he => by rw [hin]; exact List.mem_cons_of_mem _ he, fun e he => by rw [hq]; exact List.mem_cons_of_mem _ he⟩⟩
     · have hk0 : kept from_ ec = false := by simpa using hk
       simp only [hk0, Bool.not_false] at hd
       simp only [hd, if_true, pure, Except.pure, Except.ok.injEq] at hr
       subst hr
       simp only [List.filter_cons, hk0, Bool.false_eq_true, if_false] at hregs
       exact ⟨⟨h.wus, hnm, hregs⟩, ⟨rfl, rfl, rfl, rfl, rfl, rfl, rfl, rfl, rfl, rfl, rfl, rfl, rfl, rfl, hlen, rfl, rfl, rfl, rfl,
-          fun e he => by rw [hin]; exact List.mem_cons_of_mem _ he⟩⟩
+          fun e he => by rw [hin]; exact List.mem_cons_of_mem _ he, fun e he => by rw [hq]; exact List.mem_cons_of_mem _ he⟩⟩
 
 /-- the write units of a normal tick (`before = -1`) when everything on the write bus will be kept -/
 theorem wus_drain_m1 (from_ : Word) (target : GoMap Reg Word) : ∀ (n i : Nat) (s s' : State), i + n = s.wus.length →
-    DrainInv from_ target s → (∀ ec ∈ s.writeBus.inside, kept from_ ec = true) →
+    DrainInv from_ target s → (∀ ec ∈ s.writeBus.queue, kept from_ ec = true) →
     (List.range' i n).foldlM (fun s j => wuCycle s j (BitVec.ofInt 32 (-1))) s = .ok s' →
     DrainInv from_ target s' ∧ DrainKeep s s' := by
   intro n
@@ -140,9 +141,9 @@ theorem wus_drain_m1 (from_ : Word) (target : GoMap Reg Word) : ∀ (n i : Nat) 
     · rename_i s1 h1
       obtain ⟨d1, k1⟩ := wuCycle_drainG from_ (BitVec.ofInt 32 (-1)) target s s1 i (by omega) h
         (by intro ec q hq
-            have : kept from_ ec = true := hk ec (by simp only [BufferedBus.inside, hq, List.cons_append, List.mem_cons, true_or])
+            have : kept from_ ec = true := hk ec (by rw [hq]; exact List.mem_cons_self)
             simp only [this, bne_self_eq_false, Bool.false_and, Bool.not_true]) h1
-      obtain ⟨d2, k2⟩ := ih (i + 1) s1 s' (by rw [k1.wus]; omega) d1 (fun ec hec => hk ec (k1.wsub ec hec)) hr
+      obtain ⟨d2, k2⟩ := ih (i + 1) s1 s' (by rw [k1.wus]; omega) d1 (fun ec hec => hk ec (k1.wqsub ec hec)) hr
       exact ⟨d2, k1.trans k2⟩
 
 /-- one write unit (idle) called with `before = from_` -/
